@@ -108,8 +108,27 @@ def build_arg(a, reg=None):
     raise AssertionError(a)
 
 
-def build_registry(spec):
+def make_typedef(td):
+    from hugr import ext
+    bound = ext.ExplicitBound(B(td["bound"][1])) if td["bound"][0] == "E" else ext.FromParamsBound(list(td["bound"][1]))
+    return ext.TypeDef(td["name"], td.get("descr", ""), [build_param(p) for p in td.get("params", [])], bound)
+
+
+def make_opdef(od):
     from hugr import ext, tys
+    sk = od.get("sig", "plain")
+    if sk == "binary":
+        sig = ext.OpDefSig(None, binary=True)
+    elif sk == "poly":
+        sig = ext.OpDefSig(tys.PolyFuncType([tys.TypeTypeParam(tys.TypeBound.Any)],
+                                            tys.FunctionType.endo([tys.Variable(0, tys.TypeBound.Any)])))
+    else:
+        sig = ext.OpDefSig(tys.FunctionType.endo([tys.Qubit]))
+    return ext.OpDef(od["name"], sig, od.get("descr", ""))
+
+
+def build_registry(spec):
+    from hugr import ext
     reg = ext.ExtensionRegistry()
     for e in spec:
         if "std" in e:
@@ -117,19 +136,69 @@ def build_registry(spec):
             continue
         x = ext.Extension(e["name"], ext.Version(0, 1, 0))
         for td in e.get("types", []):
-            bound = ext.ExplicitBound(B(td["bound"][1])) if td["bound"][0] == "E" else ext.FromParamsBound(list(td["bound"][1]))
-            x.add_type_def(ext.TypeDef(td["name"], td.get("descr", ""), [build_param(p) for p in td.get("params", [])], bound))
+            x.add_type_def(make_typedef(td))
         for od in e.get("ops", []):
-            sk = od.get("sig", "plain")
-            if sk == "binary":
-                sig = ext.OpDefSig(None, binary=True)
-            elif sk == "poly":
-                sig = ext.OpDefSig(tys.PolyFuncType([tys.TypeTypeParam(tys.TypeBound.Any)],
-                                                    tys.FunctionType.endo([tys.Variable(0, tys.TypeBound.Any)])))
-            else:
-                sig = ext.OpDefSig(tys.FunctionType.endo([tys.Qubit]))
-            x.add_op_def(ext.OpDef(od["name"], sig, od.get("descr", "")))
+            x.add_op_def(make_opdef(od))
         reg.add_extension(x)
+    return reg
+
+
+# Registries with a history (seeded C11-j).  "Exactly when the registry holds an extension of that name containing a
+# definition of that name" speaks of the registry as it is at the time of the call, however it got there.  A registry
+# spec with a history is brought to the same final contents as `build_registry(spec)` on ONE registry object in
+# `k` stages: every extension has a birth stage (`registry.add_extension`), every definition of a generated extension a
+# birth stage of its own; a definition born after its extension is added IN PLACE to the already registered extension
+# object (`Extension.add_type_def` / `add_op_def`), optionally replacing an older definition of the same name ("old":
+# other description, other bound) that was there from the start.  After every stage but the last `warm(registry)` is
+# called: the harness runs its whole observation of the case's expression against the half-built registry and throws
+# the result away.  `pre`: before all that, the same against another registry object ("full": the final contents,
+# "empty").  The std extension objects are shared and never mutated (only their `add_extension` is delayed).
+def old_variant(d, is_type):
+    d = {**d, "descr": "old " + d.get("descr", "")}
+    if is_type:
+        d["bound"] = ["E", "A" if d["bound"] == ["E", "C"] else "C"]
+    return d
+
+
+def build_registry_hist(spec, hist, warm):
+    from hugr import ext
+    K = min(max(int(hist.get("k", 2)), 1), 4)
+    eb, tb, ob, old = hist.get("ext", {}), hist.get("types", {}), hist.get("ops", {}), set(hist.get("old", []))
+
+    def birth(d, key):
+        return min(max(int(d.get(key, 0)), 0), K - 1)
+    if hist.get("pre") == "full":
+        warm(build_registry(spec))
+    elif hist.get("pre") == "empty":
+        warm(build_registry([]))
+    reg = ext.ExtensionRegistry()
+    objs = {}
+    for s in range(K):
+        for e in spec:
+            if "std" in e:
+                if birth(eb, e["std"]) == s:
+                    reg.add_extension(std_exts()[e["std"]])
+                continue
+            nm = e["name"]
+            be = birth(eb, nm)
+            if be > s:
+                continue
+            if be == s:
+                objs[nm] = ext.Extension(nm, ext.Version(0, 1, 0))
+            x = objs[nm]
+            for key, births, make, add, tag in (("types", tb, make_typedef, x.add_type_def, "t:"),
+                                                ("ops", ob, make_opdef, x.add_op_def, "o:")):
+                for d in e.get(key, []):
+                    k2 = nm + "/" + d["name"]
+                    bd = max(birth(births, k2), be)
+                    if be == s and bd > s and tag + k2 in old:
+                        add(make(old_variant(d, key == "types")))
+                    if bd == s:
+                        add(make(d))
+            if be == s:
+                reg.add_extension(x)
+        if s < K - 1:
+            warm(reg)
     return reg
 
 
@@ -1893,6 +1962,119 @@ def smaller_args(a):
                 yield ["seq", a[1][:j] + [s] + a[1][j + 1:]]
 
 
+# ------------------------------------------------------------------------------------------------ registries with a history
+# observe - change - observe on one registry object (seeded C11-j: a cache of failed lookups that outlives
+# `Extension.add_type_def`).  Any expression of the other streams, its registry brought to its final contents in stages
+# with the same expression resolved in between (build_registry_hist).
+def rand_hist(rng, spec):
+    K = rng.choice([2, 2, 2, 3])
+    h = {"k": K, "ext": {}, "types": {}, "ops": {}, "old": []}
+    for e in spec:
+        nm = e["std"] if "std" in e else e["name"]
+        h["ext"][nm] = rng.choice([0, 0, 0] + list(range(K)))          # mostly registered from the start
+        if "std" in e:
+            continue
+        for key, tag in (("types", "t:"), ("ops", "o:")):
+            for d in e.get(key, []):
+                b = rng.randrange(K)
+                h[key][nm + "/" + d["name"]] = b
+                if b > 0 and rng.random() < 0.25:
+                    h["old"].append(tag + nm + "/" + d["name"])
+    r = rng.random()
+    if r < 0.12:
+        h["pre"] = "full"
+    elif r < 0.2:
+        h["pre"] = "empty"
+    return h
+
+
+def hist_in_place(case):
+    """(extension, name, "types" | "ops", redefined) of the definitions added in place to a registered extension"""
+    h = case["hist"]
+    K = min(max(int(h.get("k", 2)), 1), 4)
+    out = []
+    for e in case["reg"]:
+        if "std" in e:
+            continue
+        be = min(max(int(h.get("ext", {}).get(e["name"], 0)), 0), K - 1)
+        for key, tag in (("types", "t:"), ("ops", "o:")):
+            for d in e.get(key, []):
+                k2 = e["name"] + "/" + d["name"]
+                if min(max(int(h.get(key, {}).get(k2, 0)), 0), K - 1) > be:
+                    out.append((e["name"], d["name"], key, tag + k2 in h.get("old", [])))
+    return out
+
+
+def hist_sweep():
+    """one late item at a time, under every kind of expression"""
+    ext_a = {"name": "ext.a", "types": [{"name": "T", "descr": "", "params": [], "bound": ["E", "C"]},
+                                         {"name": "List", "descr": "", "params": [["type", "A"]], "bound": ["P", [0]]}],
+             "ops": [{"name": "Op", "descr": "a definition", "sig": "plain"}]}
+    ext_ops = {"name": "ext.ops", "types": [], "ops": [{"name": "Id", "descr": "identity", "sig": "poly"}]}
+    t_in = ["opaque", "ext.a", "T", [], "C"]
+    lst = ["opaque", "ext.a", "List", [["type", t_in]], "C"]
+    nodes = [{"op": "custom", "ext": "ext.a", "name": "Op", "descr": "orig",
+              "sig": {"in": [t_in], "out": [lst], "reqs": []}, "args": []},
+             {"op": "custom", "ext": "ext.ops", "name": "Id", "descr": "identity",
+              "sig": {"in": [t_in], "out": [t_in], "reqs": ["ext.ops"]}, "args": [["type", t_in]]}]
+    exprs = [{"kind": "ty", "t": ["sum", [[t_in], [["func", [lst], [], []]]]]},
+             {"kind": "arg", "a": ["seq", [["type", t_in], ["seq", [["type", lst]]]]]},
+             {"kind": "hugr", "nodes": nodes},
+             {"kind": "whole", "body": {"nodes": nodes}}]
+    hists = [("type-in-place", {"k": 2, "types": {"ext.a/T": 1}}),
+             ("op-in-place", {"k": 2, "ops": {"ext.a/Op": 1, "ext.ops/Id": 1}}),
+             ("extension-late", {"k": 2, "ext": {"ext.a": 1}}),
+             ("all-in-place", {"k": 2, "types": {"ext.a/T": 1, "ext.a/List": 1}, "ops": {"ext.a/Op": 1, "ext.ops/Id": 1}}),
+             ("type-redefined", {"k": 2, "types": {"ext.a/T": 1}, "old": ["t:ext.a/T"]}),
+             ("op-redefined", {"k": 2, "ops": {"ext.a/Op": 1}, "old": ["o:ext.a/Op"]}),
+             ("other-registry-full", {"k": 1, "pre": "full"}),
+             ("other-registry-empty", {"k": 1, "pre": "empty"}),
+             ("three-stages", {"k": 3, "ext": {"ext.a": 1}, "types": {"ext.a/T": 2}, "ops": {"ext.a/Op": 2}})]
+    for x in exprs:
+        for name, h in hists:
+            yield {**x, "via": "loaded", "reg": [ext_a, ext_ops], "mode": "hist-sweep:" + name, "hist": h}
+
+
+def history_stream(rng, tier):
+    allstd = sorted(std_exts())
+    for c in hist_sweep():
+        yield c
+    for _ in range(150 if tier == "quick" else 1800):
+        r = rng.random()
+        if r < 0.5:
+            universe = rand_universe(rng)
+            std_names = rng.sample(allstd, rng.choice([0, 0, 1, 2]))
+            g = Gen(rng, universe, std_names)
+            if rng.random() < 0.6:
+                reg = [json.loads(json.dumps(e)) for e in universe]
+                reg += [{"std": n} for n in std_names if n not in {e["name"] for e in reg}]
+                rng.shuffle(reg)
+                mode = "complete"
+            else:
+                reg, mode = cut_registry(rng, universe, std_names)
+            rr = rng.random()
+            if rr < 0.4:
+                c = {"kind": "ty", "t": g.ty(rng.choice([1, 2, 2, 3]))}
+            elif rr < 0.5:
+                c = {"kind": "arg", "a": g.arg(2)}
+            elif rr < 0.85:
+                c = {"kind": "hugr", "nodes": [g.custom(rng.choice([0, 1, 2])) for _ in range(rng.randint(1, 3))]}
+            else:
+                c = {"kind": "whole", "body": gen_body(rng, g, 2)}
+            c.update({"via": "loaded", "reg": reg, "mode": mode})
+        elif r < 0.75:
+            sort = rng.choice(["ty", "arg"])
+            p = rand_path(rng, sort, rng.choice([1, 2, 3, 4]))
+            where = rng.choice(["bare", "bare", "op-arg" if sort == "arg" else "op-sig"])
+            c = path_case(sort, p, where, rng.choice(["complete", "complete", "complete", "leaf-only", "boxes-only"]), rng)
+        elif r < 0.9:
+            c = sibling_case(rng, allstd)
+        else:
+            c = whole_body_case(rng, allstd)
+        c["hist"] = rand_hist(rng, c["reg"])
+        yield c
+
+
 class C11(fw.Prop):
     id = "C11"
     props_file = "props/C11.v"
@@ -1928,7 +2110,15 @@ class C11(fw.Prop):
             "compactly and as a general sum of empty rows (equal under ==, different on the wire), sizes 0-3, under every "
             "container, placed at every pair of positions a result-sharing implementation would merge (function-type "
             "input/output, two inputs, sum variants, row elements, arguments of an opaque type, sequence elements, "
-            "signature vs type arguments, sibling nodes, nested body vs outer HUGR).  non-trivial = resolution changed "
+            "signature vs type arguments, sibling nodes, nested body vs outer HUGR); a registry-history stream: "
+            "expressions of the other streams (random types / type arguments / small and whole HUGRs, container chains, "
+            "sibling nodes) against ONE registry object brought to its final contents in 2-3 stages - extensions "
+            "registered late (add_extension), type and operation definitions added in place to an already registered "
+            "extension (Extension.add_type_def / add_op_def), optionally replacing an older definition of the same name, "
+            "optionally after a resolution against another registry object (complete / empty) - with the same expression "
+            "resolved after every stage; the observation reported is the one against the final state, compared with the "
+            "model and the specification evaluated on the final registry; a deterministic sweep (one late item at a time x "
+            "type / type argument / small HUGR / whole HUGR) comes first.  non-trivial = resolution changed "
             "the object and at least one opaque type or operation stayed opaque, or opaque types are nested at depth >= 2, "
             "or the case is a chain of >= 2 containers; for a whole HUGR: a node's operation changed and (a custom operation "
             "of a node stayed opaque, or a function value holds an opaque operation the registry defines - which must "
@@ -2021,6 +2211,13 @@ class C11(fw.Prop):
              "body": {"nodes": [{**op_a, "md": {"k": 1}}, {"op": "std", "which": "noop", "ty": t_in},
                                 {**ident(t_other), "extra_outs": 1}, {"op": "const", "val": ["int", 3]},
                                 {**ident(t_in), "md": {"name": "x"}}]}},
+            # seeded C11-j (a cache of failed lookups that outlives Extension.add_type_def): one registry object; ext.a
+            # registered without T / without Op; the expression resolved; the definition added in place; resolved again
+            {"kind": "ty", "via": "loaded", "reg": [ext_a], "t": t_in, "hist": {"k": 2, "types": {"ext.a/T": 1}}},
+            {"kind": "hugr", "via": "loaded", "reg": [ext_a], "nodes": [op_a],
+             "hist": {"k": 2, "types": {"ext.a/T": 1}, "ops": {"ext.a/Op": 1}}},
+            {"kind": "whole", "via": "loaded", "reg": [ext_a, ext_ops], "body": {"nodes": [op_a, ident(t_in)]},
+             "hist": {"k": 3, "ext": {"ext.a": 1}, "types": {"ext.a/T": 2}, "ops": {"ext.ops/Id": 1}}},
         ]
 
     def generate(self, rng, tier, ctx):
@@ -2089,6 +2286,8 @@ class C11(fw.Prop):
             if rng.random() < 0.3:
                 twin["holes"] = [rng.randrange(50)]
             cases.append(twin)
+        # registries with a history (after everything else: the draws of the older streams are unchanged)
+        cases += list(history_stream(rng, tier))
         return cases
 
     def std_sweep(self):
@@ -2114,9 +2313,24 @@ class C11(fw.Prop):
 
     # ---- observation
     def observe(self, case, ctx):
+        if "hist" in case:
+            # one registry object brought to its final contents in stages, the case's expression resolved against it
+            # after every stage; what is reported is the observation against the final state (see build_registry_hist)
+            plain = {k: v for k, v in case.items() if k != "hist"}
+
+            def warm(r):
+                try:
+                    self.observe_on(plain, r, ctx)
+                except Exception:  # noqa: BLE001  (an intermediate state is not the subject of the case)
+                    pass
+            reg = build_registry_hist(case["reg"], case["hist"], warm)
+        else:
+            reg = build_registry(case["reg"])
+        return self.observe_on(case, reg, ctx)
+
+    def observe_on(self, case, reg, ctx):
         import hugr._serialization.tys as stys
         from hugr import tys
-        reg = build_registry(case["reg"])
         out = {"reg": print_registry(reg)}
         k = case["kind"]
         if k in ("ty", "arg"):
@@ -2401,6 +2615,21 @@ class C11(fw.Prop):
 
     def _shrink(self, case):
         reg = case["reg"]
+        if "hist" in case:
+            h = case["hist"]
+            yield {k2: v for k2, v in case.items() if k2 != "hist"}
+            if "pre" in h:
+                yield {**case, "hist": {k2: v for k2, v in h.items() if k2 != "pre"}}
+            if h.get("old"):
+                yield {**case, "hist": {**h, "old": []}}
+                for i in range(len(h["old"])):
+                    yield {**case, "hist": {**h, "old": h["old"][:i] + h["old"][i + 1:]}}
+            if int(h.get("k", 2)) > 1:
+                yield {**case, "hist": {**h, "k": int(h.get("k", 2)) - 1}}
+            for key in ("ext", "types", "ops"):
+                for k2, b in h.get(key, {}).items():
+                    if b:
+                        yield {**case, "hist": {**h, key: {k3: v for k3, v in h[key].items() if k3 != k2}}}
         for i in range(len(reg)):
             yield {**case, "reg": reg[:i] + reg[i + 1:]}
         for i, e in enumerate(reg):
@@ -2448,6 +2677,9 @@ class C11(fw.Prop):
 
     def neighbours(self, case, rng):
         """same registry, fresh expressions over the same universe; and the sub-expressions of the case"""
+        if "hist" in case:                  # the same neighbourhood, every neighbour with the case's history
+            plain = {k: v for k, v in case.items() if k != "hist"}
+            return [{**c, "hist": case["hist"]} for c in self.neighbours(plain, rng)]
         out = []
         universe = [e for e in case["reg"] if "std" not in e]
         std_names = [e["std"] for e in case["reg"] if "std" in e]
@@ -2480,6 +2712,24 @@ class C11(fw.Prop):
                 rp[key] = rp.get(key, 0) + 1
             m = c.get("mode", "corpus")
             d["registry_mode"][m] = d["registry_mode"].get(m, 0) + 1
+            if "hist" in c:
+                hd = d.setdefault("registry_history", {"cases": 0, "stages": {}, "other_registry_first": 0, "late_extensions": 0,
+                                                       "definitions_added_in_place": {"types": 0, "ops": 0},
+                                                       "definitions_replaced_in_place": 0,
+                                                       "cases_mentioning_a_definition_added_in_place": 0})
+                hd["cases"] += 1
+                ks = str(c["hist"].get("k", 2))
+                hd["stages"][ks] = hd["stages"].get(ks, 0) + 1
+                hd["other_registry_first"] += "pre" in c["hist"]
+                hd["late_extensions"] += sum(1 for b in c["hist"].get("ext", {}).values() if b)
+                txt = json.dumps({k2: v for k2, v in c.items() if k2 not in ("reg", "hist")})
+                hit = False
+                for e, n, key, redef in hist_in_place(c):
+                    hd["definitions_added_in_place"][key] += 1
+                    hd["definitions_replaced_in_place"] += redef
+                    hit = hit or (json.dumps(["opaque", e, n])[:-1] in txt if key == "types"
+                                  else json.dumps({"ext": e, "name": n})[1:-1] in txt)
+                hd["cases_mentioning_a_definition_added_in_place"] += hit
             d["via"][c["via"]] = d["via"].get(c["via"], 0) + 1
             if c["kind"] == "whole":
                 pairs = whole_pairs(o)
